@@ -138,7 +138,8 @@ class GridKernel(Kernel):
             if not self.training and hasattr(self, "_cached_kernel_mat"):
                 if _verif.ON:
                     _verif.cache_event("c_hit", self, "_cached_kernel_mat")
-                return self._cached_kernel_mat
+                covar = self._cached_kernel_mat
+                return covar.diagonal(dim1=-1, dim2=-2) if diag else covar
             # Can exploit Toeplitz structure if grid points in each dimension are equally
             # spaced and using a translation-invariant kernel
             if settings.use_toeplitz.on():
@@ -178,7 +179,7 @@ class GridKernel(Kernel):
                 if _verif.ON:
                     _verif.cache_event("c_fill", self, "_cached_kernel_mat")
 
-            return covar
+            return covar.diagonal(dim1=-1, dim2=-2) if diag else covar
         else:
             return self.base_kernel.forward(x1, x2, diag=diag, last_dim_is_batch=last_dim_is_batch, **params)
 
